@@ -358,3 +358,251 @@ def g4():
 
 g4.fallback = ("From Coq Require Import List String.\nFrom XV Require Import Model.Axis.\nImport ListNotations.\n"
                "Definition gen_cumsum_table : list ((pos * pos) * (bool * (nat * nat))) := [].")
+
+
+# ---------------------------------------------------------------------------
+# G6: the loop-nest kernels of transform.py as Gallina over Ops A
+#
+# A statement list is translated in continuation style: the rest of a block is pushed
+# into both branches of every `if`, so chains that assign different locals need no
+# special case.  Arrays that are mutated (`output`) are threaded functionally.
+
+
+class KT:
+    """Kernel translator for one @guvectorize function."""
+
+    def __init__(self, fn, arrays, scalars_bool, out):
+        self.fn = fn
+        self.arrays = set(arrays)      # names bound to 1-d arrays of A
+        self.bools = set(scalars_bool)  # names bound to booleans
+        self.nats = set()              # names bound to naturals (loop indices, len())
+        self.out = out
+
+    # ---- expressions ----
+    def ty(self, e):
+        if isinstance(e, ast.Name):
+            if e.id in self.nats:
+                return "nat"
+            if e.id in self.bools:
+                return "bool"
+            if e.id in self.arrays:
+                return "arr"
+            return "A"
+        if isinstance(e, ast.Constant):
+            return "nat" if isinstance(e.value, int) and not isinstance(e.value, bool) else "A"
+        if isinstance(e, ast.BinOp):
+            l, r = self.ty(e.left), self.ty(e.right)
+            return "nat" if l == r == "nat" else "A"
+        if isinstance(e, ast.Call) and isinstance(e.func, ast.Name) and e.func.id == "len":
+            return "nat"
+        if isinstance(e, ast.Subscript):
+            if isinstance(e.slice, ast.Slice) or self.is_mask(e.slice):
+                return "arr"
+            return "A"
+        if isinstance(e, ast.Call) and np_call(e, "interp"):
+            return "arr"
+        if isinstance(e, (ast.Compare, ast.BoolOp)) or (isinstance(e, ast.UnaryOp) and isinstance(e.op, ast.Not)):
+            return "bool"
+        if isinstance(e, ast.Call) and np_call(e, "isnan"):
+            return "bool" if self.ty(e.args[0]) != "arr" else "mask"
+        return "A"
+
+    def is_mask(self, s):
+        return (isinstance(s, ast.UnaryOp) and isinstance(s.op, ast.Invert) and np_call(s.operand, "isnan"))
+
+    def ex(self, e):
+        if isinstance(e, ast.Name):
+            return e.id
+        if isinstance(e, ast.Constant):
+            v = e.value
+            if isinstance(v, bool):
+                return "true" if v else "false"
+            if isinstance(v, int):
+                return f"{v}%nat" if True else str(v)
+            raise Shape(f"constant {v!r}")
+        if isinstance(e, ast.Attribute) and isinstance(e.value, ast.Name) and e.value.id == "np" and e.attr == "nan":
+            return "nanv"
+        if isinstance(e, ast.Subscript):
+            base = self.ex(e.value)
+            s = e.slice
+            if isinstance(s, ast.Slice):
+                if s.lower is None and s.upper is None and isinstance(s.step, ast.UnaryOp) \
+                        and isinstance(s.step.op, ast.USub) and const(s.step.operand) == 1:
+                    return f"(rev {base})"
+                raise Shape("unsupported slice")
+            if self.is_mask(s):
+                if ast.dump(s.operand.args[0]) != ast.dump(e.value):
+                    raise Shape("mask over a different array")
+                return f"(not_nan isnan {base})"
+            if isinstance(s, ast.UnaryOp) and isinstance(s.op, ast.USub) and const(s.operand) == 1:
+                return f"(idx_last o {base})"
+            return f"(idx o {base} {self.nat(s)})"
+        if isinstance(e, ast.BinOp):
+            if self.ty(e) == "nat":
+                op = {ast.Add: "+", ast.Sub: "-", ast.Mult: "*"}.get(type(e.op))
+                if op is None:
+                    raise Shape("nat op")
+                return f"({self.ex(e.left)} {op} {self.ex(e.right)})%nat"
+            op = {ast.Add: "add", ast.Sub: "sub", ast.Mult: "mul", ast.Div: "div"}.get(type(e.op))
+            if op is None:
+                raise Shape("binop")
+            return f"({op} o {self.val(e.left)} {self.val(e.right)})"
+        if isinstance(e, ast.Compare):
+            if len(e.ops) != 1:
+                raise Shape("chained comparison")
+            l, r = e.left, e.comparators[0]
+            if self.ty(l) == "nat" and self.ty(r) == "nat":
+                op = {ast.Eq: "Nat.eqb", ast.Lt: "Nat.ltb"}.get(type(e.ops[0]))
+                if op is None:
+                    raise Shape("nat comparison")
+                return f"({op} {self.ex(l)} {self.ex(r)})"
+            a, b = self.val(l), self.val(r)
+            t = type(e.ops[0])
+            if t is ast.Lt:
+                return f"(ltb o {a} {b})"
+            if t is ast.Gt:
+                return f"(gtb o {a} {b})"
+            if t is ast.Eq:
+                return f"(eqb o {a} {b})"
+            if t is ast.LtE:
+                return f"(leb o {a} {b})"
+            if t is ast.GtE:
+                return f"(leb o {b} {a})"
+            raise Shape("comparison")
+        if isinstance(e, ast.BoolOp):
+            op = "&&" if isinstance(e.op, ast.And) else "||"
+            return "(" + f" {op} ".join(self.ex(v) for v in e.values) + ")"
+        if isinstance(e, ast.UnaryOp) and isinstance(e.op, ast.Not):
+            return f"(negb {self.ex(e.operand)})"
+        if isinstance(e, ast.Call):
+            if isinstance(e.func, ast.Name) and e.func.id in ("max", "min") and len(e.args) == 2:
+                return f"(py_{e.func.id} o {self.val(e.args[0])} {self.val(e.args[1])})"
+            if isinstance(e.func, ast.Name) and e.func.id == "len":
+                return f"(List.length {self.ex(e.args[0])})"
+            if np_call(e, "isnan") and self.ty(e.args[0]) != "arr":
+                return f"(isnan {self.val(e.args[0])})"
+            if np_call(e, "interp") and len(e.args) == 3:
+                return f"(np_interp o isnan nanv {self.ex(e.args[0])} {self.ex(e.args[1])} {self.ex(e.args[2])})"
+            if np_call(e, "nanmax") or np_call(e, "nanmin"):
+                return f"({e.func.attr} o isnan nanv {self.ex(e.args[0])})"
+        raise Shape(f"unsupported expression {ast.dump(e)[:90]}")
+
+    def val(self, e):
+        if self.ty(e) == "nat":
+            raise Shape("natural used as a value")
+        return self.ex(e)
+
+    def nat(self, e):
+        if self.ty(e) != "nat":
+            raise Shape("index is not a natural")
+        return self.ex(e)
+
+    # ---- statements ----
+    def block(self, stmts, k):
+        """k: Gallina text for the value of the enclosing construct once stmts are done."""
+        if not stmts:
+            return k
+        s, rest = stmts[0], stmts[1:]
+        if isinstance(s, ast.Expr) and isinstance(s.value, ast.Constant):
+            return self.block(rest, k)
+        if isinstance(s, ast.Pass):
+            return self.block(rest, k)
+        if isinstance(s, ast.Continue):
+            return k
+        if isinstance(s, ast.Assign):
+            tgts = s.targets
+            if len(tgts) == 1 and isinstance(tgts[0], ast.Subscript):
+                t = tgts[0]
+                if not (isinstance(t.value, ast.Name) and t.value.id == self.out):
+                    raise Shape("store into something other than the output")
+                if isinstance(t.slice, ast.Slice) and t.slice.lower is None and t.slice.upper is None:
+                    v = s.value
+                    if isinstance(v, ast.Constant) and v.value == 0:
+                        new = f"(zeros_like o {self.out})"
+                    else:
+                        new = self.ex(v)
+                    return f"let {self.out} := {new} in\n{self.block(rest, k)}"
+                return (f"let {self.out} := upd_set {self.out} {self.nat(t.slice)} {self.val(s.value)} in\n"
+                        f"{self.block(rest, k)}")
+            names = []
+            for t in tgts:
+                if not isinstance(t, ast.Name):
+                    raise Shape("assignment target")
+                names.append(t.id)
+            ty = self.ty(s.value)
+            text = self.ex(s.value)
+            for n in names:
+                (self.nats if ty == "nat" else self.bools if ty == "bool" else
+                 self.arrays if ty == "arr" else set()).add(n)
+                if ty != "nat":
+                    self.nats.discard(n)
+            body = self.block(rest, k)
+            for n in reversed(names):
+                body = f"let {n} := {text} in\n{body}"
+            return body
+        if isinstance(s, ast.AugAssign):
+            t = s.target
+            if not (isinstance(t, ast.Subscript) and isinstance(t.value, ast.Name) and t.value.id == self.out
+                    and isinstance(s.op, ast.Add)):
+                raise Shape("augmented assignment")
+            return (f"let {self.out} := upd_add o {self.out} {self.nat(t.slice)} {self.val(s.value)} in\n"
+                    f"{self.block(rest, k)}")
+        if isinstance(s, ast.If):
+            save = (set(self.nats), set(self.bools), set(self.arrays))
+            a = self.block(list(s.body) + rest, k)
+            self.nats, self.bools, self.arrays = (set(x) for x in save)
+            b = self.block(list(s.orelse) + rest, k)
+            self.nats, self.bools, self.arrays = (set(x) for x in save)
+            return f"if {self.ex(s.test)}\nthen ({a})\nelse ({b})"
+        if isinstance(s, ast.For):
+            if not (isinstance(s.target, ast.Name) and isinstance(s.iter, ast.Call)
+                    and isinstance(s.iter.func, ast.Name) and s.iter.func.id == "range"
+                    and len(s.iter.args) == 1 and not s.orelse):
+                raise Shape("for loop shape")
+            i = s.target.id
+            self.nats.add(i)
+            bound = self.nat(s.iter.args[0])
+            body = self.block(list(s.body), self.out)
+            loop = (f"fold_left (fun ({self.out} : list A) ({i} : nat) =>\n{body})\n"
+                    f"(seq 0 {bound}) {self.out}")
+            return f"let {self.out} := {loop} in\n{self.block(rest, k)}"
+        raise Shape(f"unsupported statement {type(s).__name__}")
+
+
+def kernel(fn_name, bool_params):
+    tree = parse("transform.py")
+    fn = [n for n in tree.body if isinstance(n, ast.FunctionDef) and n.name == fn_name]
+    if len(fn) != 1:
+        raise Shape(f"{fn_name} not found")
+    fn = fn[0]
+    if not (len(fn.decorator_list) == 1 and isinstance(fn.decorator_list[0], ast.Call)
+            and getattr(fn.decorator_list[0].func, "id", "") == "guvectorize"):
+        raise Shape(f"{fn_name}: decorator")
+    layout = const(fn.decorator_list[0].args[1])
+    params = [a.arg for a in fn.args.args]
+    out = params[-1]
+    arrays = [p for p in params if p not in bool_params]
+    t = KT(fn, arrays, bool_params, out)
+    body = t.block(list(fn.body), out)
+    binders = " ".join(f"({p} : bool)" if p in bool_params else f"({p} : list A)" for p in params)
+    return layout, f"Definition gen{fn_name} {binders} : list A :=\n{body}."
+
+
+@extractor("G6")
+def g6():
+    lay_c, cons = kernel("_interp_1d_conservative", [])
+    lay_l, lin = kernel("_interp_1d_linear", ["mask_edges", "bypass_checks"])
+    if lay_c != "(n),(n),(n),(m),(m)->(m)" or lay_l != "(n),(n),(m),(),()->(m)":
+        raise Shape("gufunc layout changed")
+    out = ["From Coq Require Import List Bool Arith.", "From XV Require Import Base.Ops Base.Kernel.",
+           "Import ListNotations.", "Section G6.",
+           "Context {A : Type} (o : Ops A) (isnan : A -> bool) (nanv : A).",
+           cons, lin, "End G6."]
+    return "\n".join(out)
+
+
+g6.fallback = ("From Coq Require Import List Bool Arith.\nFrom XV Require Import Base.Ops Base.Kernel.\n"
+               "Section G6.\nContext {A : Type} (o : Ops A) (isnan : A -> bool) (nanv : A).\n"
+               "Definition gen_interp_1d_conservative (phi theta_1 theta_2 theta_hat_1 theta_hat_2 output : list A) : list A := output.\n"
+               "Definition gen_interp_1d_linear (phi theta target_theta_levels : list A) (mask_edges bypass_checks : bool) (output : list A) : list A := output.\n"
+               "End G6.")
